@@ -333,6 +333,15 @@ func (a *analysis) names(np NamePair, mstruct *types.Struct, iface *types.Interf
 		} else {
 			quals[a.importedName(s.Path)] = true
 		}
+		// an alias some source file uses for this path was its qualifier until a conflict re-aliased it
+		for _, al := range a.req.AllAliases[s.Path] {
+			if al != "." && al != "_" && !quals[al] {
+				stale[al] = true
+			}
+		}
+	}
+	for q := range quals {
+		delete(stale, q)
 	}
 	if a.tl == nil {
 		a.tl = a.buildTimeline()
